@@ -50,6 +50,10 @@ def is_padded_source(t):
   return t.k == 'attr' and t.a[1] in common.PADDED_SOURCES
 
 
+def is_modal_shape(t):
+  return t.k == 'attr' and t.a[1] == 'modal_shape'
+
+
 ELEMENTWISE_CALLS = {'abs', 'absolute', 'sqrt', 'exp', 'negative', 'square', 'asarray', 'array', 'float32', 'float64', 'log', 'sign'}
 
 
@@ -124,6 +128,13 @@ def padded_scan(prog, chk, rule, files=None):
         elif t.k == 'call' and t.a[0] == Term('ext', 'len') and t.a[1] and pure_padded(t.a[1][0]) and inside:
           n += 1
           hits.append((f, t, 'extent', 'end'))
+        elif t.k == 'bin' and t.a[0] in ('+', '-', '*', '/', '//', '%', '**') and inside:
+          # wavenumber data combined arithmetically with the padded extent of the modal layout (e.g. l / (modal_shape[-1] - 1))
+          for data, other in ((t.a[1], t.a[2]), (t.a[2], t.a[1])):
+            if sym.contains(data, is_padded_source) and not sym.contains(data, is_modal_shape) and sym.contains(other, is_modal_shape) and not sym.contains(other, is_padded_source):
+              n += 1
+              hits.append((f, t, 'extent', 'end'))
+              break
   out = 0
   for f, t, what, kind in hits:
     q = f.qualname.replace('dinosaur.', '')
